@@ -25,9 +25,14 @@ RULE = ("cases = mixer histories (keep, zero value, then steps add(delta, data) 
         "__getitem__-only sequence, plain and mapped Stream, a finite Streamix of its own, user Stream "
         "subclasses whose __iter__ transforms / skips / replaces what they store, tee hubs from thub - one "
         "hub added once, twice or three times, further uses of it kept outside the mixer and read before or "
-        "after the mix); ControlStream values of every kind (numbers, None, strings, tuples, types, "
+        "after the mix; a source that can be opened only once; iterators that have an == of their own: "
+        "value equality, a Stream subclass that is its own iterator); one add() in three is first tried "
+        "with a negative delta (refused) and then made, up to two samples later, with the same event object; "
+        "ControlStream values of every kind (numbers, None, strings, tuples, types, "
         "functions, bound methods, callable objects such as filters and polynomials, objects without a useful "
-        "==; objects compared by identity), read directly or through expressions that box, pair or call them; "
+        "==; objects compared by identity; runs of assignments of values that compare equal but differ in sign of "
+        "zero, type or identity), read directly or through expressions that box, pair or call them, with a "
+        "second ControlStream alive that has assignments of its own; "
         "oracle = MixerRef (exact cumulative times, nearest-sample start not before the "
         "addition, per-sample sum taken in the order the events start - ties in the order they "
         "were added -, end rule) compared sample by sample in exact arithmetic; "
@@ -44,6 +49,9 @@ ASSUMPTIONS = [
   "after the mixer has ended (keep off) it stays ended, whatever is added later",
   "an event's items are what iter(data) delivers at the time of the add(): for a StreamTeeHub that is one of its copies per add() (every copy is the whole data, whatever the other copies do), for a Stream subclass that defines __iter__ it is that iteration",
   "a ControlStream value that is an object (type, function, callable or opaque object) must come back as the very same object; data values are compared by type and ==",
+  "a refused add() (negative delta) leaves no trace, neither in the mixer nor in the event that was offered: iter(data) belongs to the accepted add(), so the same object can be added afterwards with the delta that was meant and plays all its items (a tee hub still has every copy, a once-only source is still unopened)",
+  "the events of a mixer are told apart by identity: an event whose iterator has an == of its own (value equality, or the elementwise == of a Stream subclass that is its own iterator) is an iterable like any other",
+  "the value most recently assigned to a ControlStream includes the sign of a float zero, the type (1, 1.0, True) and, for objects, the identity, whether or not it compares equal to the value it replaces; two ControlStream objects are independent of each other",
 ]
 
 CAP = 4000   # hard bound on samples pulled in one case
@@ -266,6 +274,63 @@ class _Header(object):
   """Not a sample: supports no +."""
 
 
+class OneShot(object):
+  """Iterable that can be opened once (a recorded take, a socket): __iter__ hands the items out and
+  keeps nothing, a second iter() finds it empty."""
+
+  def __init__(self, items):
+    self.items = list(items)
+
+  def __iter__(self):
+    items, self.items = self.items, []
+    return iter(items)
+
+
+class SelfIterStream(Stream):
+  """User Stream subclass that is its own iterator (__iter__ returns self, the items come from
+  __next__).  Being a Stream, its == is the elementwise operator: it gives a Stream, not a bool."""
+
+  def __init__(self, items):
+    super(SelfIterStream, self).__init__([])
+    self.pending = list(items)
+
+  def __iter__(self):
+    return self
+
+  def __next__(self):
+    if not self.pending:
+      raise StopIteration
+    return self.pending.pop(0)
+
+  next = __next__
+
+
+class EqIter(object):
+  """Iterator with value equality: two of them compare equal whatever they still hold (what a
+  dataclass / namedtuple based note object does when its position is not part of the comparison)."""
+
+  def __init__(self, items):
+    self.pending = list(items)
+
+  def __iter__(self):
+    return self
+
+  def __next__(self):
+    if not self.pending:
+      raise StopIteration
+    return self.pending.pop(0)
+
+  next = __next__
+
+  def __eq__(self, other):
+    return isinstance(other, EqIter)
+
+  def __ne__(self, other):
+    return not isinstance(other, EqIter)
+
+  __hash__ = None
+
+
 def _neutral(x):
   """Neutral element of + for the real item x, of x's own type."""
   if isinstance(x, Vec):
@@ -300,16 +365,40 @@ _DATA_KINDS = {
   "sub_skip": lambda xs: SkipHeadStream([_Header()] + list(xs)),
   "sub_live": lambda xs: LiveStream(xs),
   "mix": _nested_mixer,
+  "oneshot": lambda xs: OneShot(xs),
+  "sub_self": lambda xs: SelfIterStream(xs),
+  "eq_iter": lambda xs: EqIter(xs),
 }
-_OWN_ITER = ("thub1", "sub_unbox", "sub_skip", "sub_live")     # Stream subclasses with their own __iter__
+_OWN_ITER = ("thub1", "sub_unbox", "sub_skip", "sub_live", "sub_self")     # Stream subclasses with their own __iter__
+_ONE_TIME = ("thub1", "hub", "oneshot")     # iter(data) hands out something that cannot be had twice
+_OWN_EQ = ("sub_self", "eq_iter")           # the event's iterator has an == that is not identity
+SITE_VEC = "Streamix zero with in-place +="
+SITE_EQ = "Streamix prunes finished events with == instead of identity"
+
+
+def _has_own_eq(case):
+  return any(stp[0] == "add" and stp[3] in _OWN_EQ for stp in case["steps"])
 
 
 def run_mixer(case):
+  try:
+    return _run_mixer(case)
+  except (Violation, Reject):
+    raise
+  except Exception as exc:
+    if _has_own_eq(case):      # same report, but under the site of this class of events
+      raise Violation("unexpected %s: %s || keep=%r zero=%r steps=%r"
+                      % (type(exc).__name__, str(exc)[:200], case["keep"], case["zero"], case["steps"]),
+                      site=SITE_EQ)
+    raise
+
+
+def _run_mixer(case):
   vs = _VS.get(case.get("vs"), Scalars)
   keep = case["keep"]
   zero_m = case["zero"]
   zero_r = vs.real(zero_m)
-  site = "Streamix zero with in-place +=" if vs is Vectors else None
+  site = SITE_EQ if _has_own_eq(case) else SITE_VEC if vs is Vectors else None
   default_zero = False
   if case.get("ctor") == "kw":
     mix = Streamix(keep=keep, zero=zero_r)
@@ -363,10 +452,34 @@ def run_mixer(case):
     check_item(got, tag)
     return True
 
-  def do_add(delta, data, payload, kind):
+  def do_add(delta, data, payload, kind, refusal=None):
+    if refusal is not None:
+      # the event is first offered with a negative delta: refused, and a refused add() leaves no trace,
+      # neither in the mixer nor in the event that was offered; after k more samples the very same
+      # object is added with the delta that was meant
+      negd, k = refusal
+      hist.append("(that event is first offered as add(%r, ..)! ; next*%d)" % (negd, k))
+      try:
+        mix.add(negd, payload)
+      except ValueError:
+        labels.add("negative delta")
+      else:
+        fail("add(%r, ..) was accepted" % (negd,))
+      for _ in range(k):
+        pull_one("next after a refused add")
     was_ended = ref.ended
     late0, ties0 = ref.late, ref.ties
-    mix.add(delta, payload)
+    if refusal is None:
+      mix.add(delta, payload)
+    else:
+      try:
+        mix.add(delta, payload)
+      except Exception as exc:
+        fail("add(%r, ev) of the event that add(%r, ev) had refused raised %s: %s"
+             % (delta, refusal[0], type(exc).__name__, str(exc)[:120]))
+      labels.add("refused event added again")
+      if kind in _ONE_TIME and data and not was_ended:
+        labels.add("refused one-time event added again")
     ref.add(delta, data)
     if was_ended:
       labels.add("add after the end")
@@ -381,6 +494,8 @@ def run_mixer(case):
       labels.add("data:" + kind)
       if data and (kind in _OWN_ITER or kind == "hub"):
         labels.add("event is a Stream subclass with its own __iter__")
+      if data and kind in _OWN_EQ:
+        labels.add("event iterator has an == of its own")
 
   def same_items(got, data):
     return len(got) == len(data) and all(vs.eq(g, e) for g, e in zip(got, data))
@@ -392,7 +507,8 @@ def run_mixer(case):
     if op == "add":
       delta, data, kind = stp[1], stp[2], stp[3]
       hist.append("add(%r, %s%r)@%d" % (delta, kind, data, ref.pos))
-      do_add(delta, data, _DATA_KINDS[kind]([vs.real(x) for x in data]), kind)
+      do_add(delta, data, _DATA_KINDS[kind]([vs.real(x) for x in data]), kind,
+             stp[4] if len(stp) > 4 else None)
     elif op == "add_hub":
       # an event that is a StreamTeeHub: every use of the hub - an add() to this mixer, or a use
       # outside of it - is one independent copy of the data
@@ -409,7 +525,7 @@ def run_mixer(case):
           fail("a copy of thub(%r) read outside the mixer gave %r" % (data, got))
       elif outside == "early":
         rec["other"] = iter(hub)
-      do_add(delta, data, hub, "hub")
+      do_add(delta, data, hub, "hub", stp[6] if len(stp) > 6 else None)
       rec["left"] -= 1
       if outside == "late":
         rec["other"] = iter(hub)
@@ -429,7 +545,7 @@ def run_mixer(case):
         hist.append("(no hub to add again)")
         continue
       hist.append("add(%r, hub %r again)@%d" % (delta, rec["data"], ref.pos))
-      do_add(delta, rec["data"], rec["hub"], "hub")
+      do_add(delta, rec["data"], rec["hub"], "hub", stp[2] if len(stp) > 2 else None)
       rec["left"] -= 1
       if rec["data"] and not ref.ended:
         labels.add("same hub added twice")
@@ -720,6 +836,18 @@ class _Plain(object):
   pass
 
 
+class _EqAll(object):
+  """An object whose == says yes to everything (hashed by identity)."""
+
+  def __eq__(self, other):
+    return True
+
+  def __ne__(self, other):
+    return False
+
+  __hash__ = object.__hash__
+
+
 _CS_OBJ = {
   # types
   "int": int, "float": float, "str": str, "tuple": tuple, "type": type, "Q": Q, "Fraction": Fraction,
@@ -733,6 +861,8 @@ _CS_OBJ = {
   # objects that are not callable and have no useful ==
   "object": object(), "plain": _Plain(), "list": [1, 2], "dict": {}, "stream": Stream([1, 2]),
   "gen": _genfunc(), "nan": float("nan"),
+  # twins: distinct objects that compare equal (the program may go on to change one of them)
+  "list2": [1, 2], "dict2": {}, "empty": [], "empty2": [], "eqall": _EqAll(), "eqall2": _EqAll(),
 }
 _CS_IDS = dict((id(v), k) for k, v in _CS_OBJ.items())
 _CS_ONEARG = ["int", "float", "str", "Q", "Fraction", "fn1", "lambda1", "abs", "call1"]
@@ -763,12 +893,38 @@ def samev(got, exp):
     return False
   if type(exp) is tuple:
     return type(got) is tuple and len(got) == len(exp) and all(samev(a, b) for a, b in zip(got, exp))
-  return type(got) is type(exp) and bool(got == exp)
+  if type(got) is not type(exp) or not bool(got == exp):
+    return False
+  if type(exp) is float and exp == 0:          # the two zeros of a float are different values
+    return math.copysign(1, got) == math.copysign(1, exp)
+  return True
+
+
+def _twin(new, cur):
+  """new is another value than cur, though == says they are equal."""
+  if new is cur:
+    return False
+  try:
+    if not bool(new == cur):
+      return False
+  except Exception:
+    return False
+  return not samev(new, cur) or id(new) in _CS_IDS
+
+
+_BYSTANDER = "bystander"     # values of the second ControlStream: (_BYSTANDER, n)
 
 
 def run_control(case):
   cur = _cs_real(case["init"])
+  by = case.get("by")
+  # a second ControlStream that lives next to the one under test (made before or after it) and has
+  # assignments of its own: each of the two yields the value most recently assigned to *it*
+  bycur = (_BYSTANDER, 0)
+  other = ControlStream(bycur) if by is not None and by % 2 == 0 else None
   cs = ControlStream(cur)
+  if by is not None and by % 2 == 1:
+    other = ControlStream(bycur)
   expr = case["expr"]
   res = None
   period = list(case["data"])
@@ -783,6 +939,9 @@ def run_control(case):
     if not isinstance(res, Stream):
       raise Violation("expression %s on a ControlStream gave %r" % (expr, res))
   labels = set(["expr:" + str(expr)])
+  if other is not None:
+    labels.add("second ControlStream alive")
+  twin_pending = False
   assigned_since_read = False
   reads = 0
   nontrivial = False
@@ -794,10 +953,16 @@ def run_control(case):
   for stp in case["steps"]:
     op = stp[0]
     if op == "set":
-      cur = _cs_real(stp[1])
+      new = _cs_real(stp[1])
+      twin_pending = _twin(new, cur) or (twin_pending and new is cur)
+      cur = new
       cs.value = cur
       hist.append("value=%r" % (stp[1],))
       assigned_since_read = True
+      if other is not None and by >= 2:
+        bycur = (_BYSTANDER, bycur[1] + 1)
+        other.value = bycur
+        hist.append("other.value=%r" % (bycur,))
       continue
     how, k = stp[1], stp[2]
     target = res if (op == "eread" and res is not None) else cs
@@ -824,7 +989,14 @@ def run_control(case):
     if not (isinstance(got, list) and len(got) == len(exp)
             and all(samev(a, b) for a, b in zip(got, exp))):
       fail("read gave %r, the value most recently assigned is %r (expected %r)" % (got, cur, exp))
+    if other is not None:
+      got = other.take(1)
+      if got != [bycur]:
+        fail("a second ControlStream, whose most recent assignment is %r, gave %r" % (bycur, got))
     if k:
+      if twin_pending:
+        labels.add("equal but different value assigned, then read")
+        twin_pending = False
       if _cs_kind(cur):
         labels.add("value read:" + _cs_kind(cur))
         if callable(cur):
@@ -837,6 +1009,9 @@ def run_control(case):
       labels.add("read:" + how)
   if not samev(cs.value, cur):
     fail("cs.value is %r at the end" % (cs.value,))
+  if other is not None and (other.value != bycur or other.take(2) != [bycur] * 2):
+    fail("a second ControlStream, whose most recent assignment is %r, has the value %r at the end"
+         % (bycur, other.value))
   # what was derived from the ControlStream keeps yielding the last assigned value after the
   # program drops its own reference to the ControlStream object
   import gc
@@ -874,10 +1049,14 @@ _delta_int = st.integers(0, 5)
 _neg_delta = st.one_of(st.integers(-3, -1), _q(-3, Fraction(-1, 7), 7), st.sampled_from([-.5, -1e-9, -2.]))
 _kinds = st.sampled_from(sorted(_DATA_KINDS))
 _outside = st.sampled_from([None, None, "before", "early", "late"])
+# one add() in three is first tried with a negative delta (refused), then - k samples later - made
+# with the delta that was meant, for the same event object
+_refusal = st.tuples(st.integers(0, 2), _neg_delta, st.integers(0, 2)).map(
+  lambda t: None if t[0] else (t[1], t[2]))
 
 
 def _steps(delta, val, maxlen, maxdata):
-  add = st.tuples(st.just("add"), delta, st.lists(val, max_size=maxdata), _kinds)
+  add = st.tuples(st.just("add"), delta, st.lists(val, max_size=maxdata), _kinds, _refusal)
   neg = st.tuples(st.just("neg"), _neg_delta, st.lists(val, max_size=2))
   nxt = st.tuples(st.just("next"), st.integers(1, 4))
   loop = st.tuples(st.just("for"), st.integers(0, 4))
@@ -886,8 +1065,8 @@ def _steps(delta, val, maxlen, maxdata):
                     st.lists(val, min_size=1, max_size=maxdata))
   setkeep = st.tuples(st.just("setkeep"), st.booleans())
   hub = st.tuples(st.just("add_hub"), delta, st.lists(val, max_size=maxdata), st.integers(1, 3), _outside,
-                  st.one_of(st.none(), delta))
-  again = st.tuples(st.just("add_again"), delta)
+                  st.one_of(st.none(), delta), _refusal)
+  again = st.tuples(st.just("add_again"), delta, _refusal)
   table = {"add": add, "neg": neg, "next": nxt, "for": loop, "take": take, "add_chain": chain,
            "setkeep": setkeep, "add_hub": hub, "add_again": again}
   # (one_of() would merge repeated alternatives, so the weights go through sampled_from)
@@ -958,11 +1137,11 @@ def _ordered_case(raw):
     steps.append(("add", delta, items(length, k[0]), kind))
   for stp in raw["rest"]:
     if stp[0] == "add":
-      steps.append(("add", stp[1], items(stp[2], stp[4]), stp[3]))
+      steps.append(("add", stp[1], items(stp[2], stp[4]), stp[3], stp[5]))
     elif stp[0] == "add_chain":
       steps.append(("add_chain", stp[1], items(stp[2], stp[5]), stp[3], items(stp[4], stp[5] + 1)))
     elif stp[0] == "add_hub":
-      steps.append(("add_hub", stp[1], items(stp[2], stp[6]), stp[3], stp[4], stp[5]))
+      steps.append(("add_hub", stp[1], items(stp[2], stp[6]), stp[3], stp[4], stp[5], stp[7]))
     else:
       steps.append(stp)
   case = dict(keep=raw["keep"], zero=_ORD_ZEROS[flavour][raw["zsel"]], ctor=raw["ctor"], steps=steps)
@@ -978,7 +1157,7 @@ def strat_ordered(tier):
   later = st.sampled_from([0] * 4 + [Q(0), 1, Q(1, 2), Q(1, 3), Q(3, 2), 2, 3, Q(7, 2), .5, 2.5])
   salt = st.integers(0, 19)
   table = {
-    "add": st.tuples(st.just("add"), later, st.integers(0, 8), _kinds, salt),
+    "add": st.tuples(st.just("add"), later, st.integers(0, 8), _kinds, salt, _refusal),
     "add_chain": st.tuples(st.just("add_chain"), later, st.integers(0, 5), delta, st.integers(1, 6), salt),
     "next": st.tuples(st.just("next"), st.integers(1, 4)),
     "for": st.tuples(st.just("for"), st.integers(0, 4)),
@@ -986,8 +1165,8 @@ def strat_ordered(tier):
     "neg": st.tuples(st.just("neg"), _neg_delta, st.just([])),
     "setkeep": st.tuples(st.just("setkeep"), st.booleans()),
     "add_hub": st.tuples(st.just("add_hub"), later, st.integers(0, 8), st.integers(1, 3), _outside,
-                         st.one_of(st.none(), later), salt),
-    "add_again": st.tuples(st.just("add_again"), later),
+                         st.one_of(st.none(), later), salt, _refusal),
+    "add_again": st.tuples(st.just("add_again"), later, _refusal),
   }
   names = (["add"] * 6 + ["next"] * 3 + ["take"] * 2 + ["for", "add_chain", "neg", "setkeep"]
            + ["add_hub"] * 2 + ["add_again"] * 2)
@@ -1033,34 +1212,44 @@ def strat_control(tier):
   maxlen = 12 if tier == "quick" else 30
   num = st.one_of(st.integers(-9, 9), _q(-3, 3, 5))
   anyv = st.one_of(num, st.none(), st.text("ab", max_size=2), st.tuples(st.integers(0, 2)),
-                   st.sampled_from([0., 1.5]))
+                   st.sampled_from([0., 1.5, -0., True, False, 1., 2 + 0j]))
+  # groups of values that compare equal but are different values: another sign of zero, another type,
+  # another object
+  twins = [[0., -0.], [0., -0., 0, False, Q(0)], [1, 1., True, Q(1), 1 + 0j], [.5, Q(1, 2)],
+           [("obj", "list"), ("obj", "list2")], [("obj", "dict"), ("obj", "dict2")],
+           [("obj", "empty"), ("obj", "empty2"), ()], [("obj", "eqall"), ("obj", "eqall2"), 3],
+           [(0.,), (-0.,), (0,)]]
   objv = st.sampled_from(sorted(_CS_OBJ)).map(lambda name: ("obj", name))
   # (weights through sampled_from: one_of() would merge the repeated alternative)
   mixv = st.sampled_from(["obj", "obj", "obj", "any"]).flatmap(lambda nm: objv if nm == "obj" else anyv)
   onearg = st.sampled_from(_CS_ONEARG).map(lambda name: ("obj", name))
   hows = st.sampled_from(["take", "take1", "next", "for"])
 
-  def steps(val):
+  def steps(val, maxlen=maxlen):
     table = {"set": st.tuples(st.just("set"), val),
              "read": st.tuples(st.just("read"), hows, st.integers(0, 4)),
              "eread": st.tuples(st.just("eread"), hows, st.integers(0, 4))}
     names = ["set"] * 3 + ["read"] + ["eread"] * 2
     return st.lists(st.sampled_from(names).flatmap(lambda nm: table[nm]), max_size=maxlen)
-  plain = st.fixed_dictionaries(dict(init=anyv, expr=st.none(), data=st.just([0]), steps=steps(anyv)))
+  by = st.sampled_from([None, None, 0, 1, 2, 3])
+  plain = st.fixed_dictionaries(dict(init=anyv, expr=st.none(), data=st.just([0]), steps=steps(anyv), by=by))
   withx = st.fixed_dictionaries(dict(
     init=num, expr=st.sampled_from(_NUM_EXPRS),
-    data=st.lists(st.integers(-5, 5), min_size=1, max_size=3), steps=steps(num)))
+    data=st.lists(st.integers(-5, 5), min_size=1, max_size=3), steps=steps(num), by=by))
+  twinx = st.sampled_from(twins).flatmap(lambda grp: st.fixed_dictionaries(dict(
+    init=st.sampled_from(grp), expr=st.sampled_from([None, None, "box", "pair"]),
+    data=st.lists(st.integers(-5, 5), min_size=1, max_size=3), steps=steps(st.sampled_from(grp)), by=by)))
   # values of any kind - types, functions, callable objects, objects without a useful == -, read
   # from the stream itself or through an expression that does not compute with them
-  plainobj = st.fixed_dictionaries(dict(init=mixv, expr=st.none(), data=st.just([0]), steps=steps(mixv)))
+  plainobj = st.fixed_dictionaries(dict(init=mixv, expr=st.none(), data=st.just([0]), steps=steps(mixv), by=by))
   objx = st.fixed_dictionaries(dict(
     init=mixv, expr=st.sampled_from(["box", "pair"]),
-    data=st.lists(st.integers(-5, 5), min_size=1, max_size=3), steps=steps(mixv)))
+    data=st.lists(st.integers(-5, 5), min_size=1, max_size=3), steps=steps(mixv), by=by))
   callx = st.fixed_dictionaries(dict(
     init=onearg, expr=st.just("call"),
-    data=st.lists(st.integers(-5, 5), min_size=1, max_size=3), steps=steps(onearg)))
-  fam = {"plain": plain, "withx": withx, "plainobj": plainobj, "objx": objx, "callx": callx}
-  names = ["plain"] * 2 + ["withx"] * 5 + ["plainobj"] * 2 + ["objx"] * 2 + ["callx"]
+    data=st.lists(st.integers(-5, 5), min_size=1, max_size=3), steps=steps(onearg), by=by))
+  fam = {"plain": plain, "withx": withx, "plainobj": plainobj, "objx": objx, "callx": callx, "twinx": twinx}
+  names = ["plain"] * 2 + ["withx"] * 4 + ["plainobj"] * 3 + ["objx"] * 2 + ["callx"] + ["twinx"] * 3
   return st.sampled_from(names).flatmap(lambda nm: fam[nm])
 
 
@@ -1085,8 +1274,10 @@ def grid(tier, shard, nshards):
               # more use of the hub stays outside the mixer; the third event is a user Stream
               # subclass with an iteration of its own
               outside = ("early", "late", "before")[(l0 + l1) % 3]
-              steps = [("add_hub", d0, [Q(1), Q(2), Q(4)][:l0 + 1], 2, outside, None), ("next", l1),
-                       ("add_again", d1),
+              # (for l0 = 0 the hub is first offered with a negative delta, for l0 = 2 the echo is)
+              steps = [("add_hub", d0, [Q(1), Q(2), Q(4)][:l0 + 1], 2, outside, None,
+                        (-d1 - 1, l1 % 2) if l0 == 0 else None), ("next", l1),
+                       ("add_again", d1, (Q(-1, 3), 0) if l0 == 2 else None),
                        ("add", Q(1, 2), [Q(100)] * l1, ("sub_unbox", "sub_skip", "sub_live")[l0])]
               yield dict(keep=keep, zero=Q(0) if l1 else 0, ctor="kw", steps=steps)
               continue
@@ -1108,20 +1299,25 @@ CLAUSES = [
                  "keep": .15, "negative delta": .08, "ended": .15, "delta:float": .03,
                  "delta:Q": .1, "delta:int": .08,
                  "event is a Stream subclass with its own __iter__": .12, "same hub added twice": .05,
-                 "hub also used outside the mixer": .05, "data:mix": .03, "data:getitem": .03},
+                 "hub also used outside the mixer": .05, "data:mix": .03, "data:getitem": .03,
+                 "refused event added again": .15, "refused one-time event added again": .04,
+                 "event iterator has an == of its own": .04, "data:oneshot": .025},
          doc="mixer histories (additions before and during playback, keep on/off, zero values, "
-             "delta types) vs MixerRef, sample by sample"),
+             "delta types, adds that are refused first and then repeated with the same event) vs MixerRef, "
+             "sample by sample"),
   Clause("ordered", strat_ordered, run_mixer, quick=1500, thorough=15000,
          floors={"summation order observable": .15, "three or more play at once": .25, "late add": .05,
                  "order-sensitive +:tuple": .1, "order-sensitive +:str": .1, "order-sensitive +:Aff": .05,
                 "event is a Stream subclass with its own __iter__": .25, "same hub added twice": .04,
-                "hub also used outside the mixer": .05},
+                "hub also used outside the mixer": .05, "refused event added again": .15,
+                "refused one-time event added again": .04, "event iterator has an == of its own": .15},
          doc="mixes of three and more tagged events under a zero value whose + is exact but not commutative "
              "(tuple and str concatenation, composition of integer affine maps), earlier events often "
              "ending while later ones go on, additions during playback: the sum is zero + items in the "
              "order the events start (ties: order of addition)"),
   Clause("vector", strat_vector, run_mixer, quick=600, thorough=6000,
-         floors={"overlap": .06, "late add": .04, "event is a Stream subclass with its own __iter__": .1},
+         floors={"overlap": .06, "late add": .04, "event is a Stream subclass with its own __iter__": .1,
+                 "refused event added again": .12},
          doc="the same with an array-like zero/sample type whose += works in place "
              "(zero + items must not modify the zero value)"),
   Clause("shared_source", strat_shared, run_shared, quick=400, thorough=4000,
@@ -1131,11 +1327,13 @@ CLAUSES = [
          floors={"delta:float": .12, "delta:Q": .15, "added in two batches": .1},
          doc="30-400 equal fractional deltas: every start sample equals the closed form "
              "nearest(d0 + i*d)"),
-  Clause("control", strat_control, run_control, quick=2000, thorough=20000,
+  Clause("control", strat_control, run_control, quick=2400, thorough=24000,
          floors={"assignment between reads": .1, "callable value read": .07, "value read:type": .03,
-                 "value read:function": .03, "value read:callable object": .025},
+                 "value read:function": .03, "value read:callable object": .025,
+                 "second ControlStream alive": .15, "equal but different value assigned, then read": .025},
          doc="ControlStream: assignments interleaved with reads of the stream and of an "
-             "expression built on it"),
+             "expression built on it (values that compare equal but differ included), a second "
+             "ControlStream with assignments of its own next to it"),
   Enumerated("grid", grid, run_mixer, shards={"quick": 4, "thorough": 8},
              doc="every two-/three-event mix over half- and third-sample deltas, lengths 0..2, "
                  "early / late third event, keep on/off"),
